@@ -721,7 +721,10 @@ theorem packResource_spec (msg bs : Bytes) (r : Resource) (comp comp' : Option C
             u16At_drop (rest := bb ++ post) (by simp [u16, u32, Nat.add_assoc]) hlen'
           have h10 : msg.length + nb.length + 2 + 2 + 4 + 2 = msg.length + nb.length + 10 := by omega
           rw [h10] at u4
-          simp only [unpackResource, unpackRHeader, r1, u1, u2, u3, u4, r2]
+          have hin : ¬ (msg.length + nb.length + 10 + bb.length >
+              (msg ++ (nb ++ u16 r.body.realType ++ u16 r.hdr.cls ++ u32 r.hdr.ttl ++ u16 bb.length ++ bb) ++ post).length) := by
+            simp [u16, u32]; omega
+          simp only [unpackResource, unpackRHeader, r1, u1, u2, u3, u4, hin, if_false, r2]
           simp [normResource, u16, u32]
           omega
 
